@@ -138,3 +138,46 @@ def run(eng, ctx):
     setters = [f for f in eng.repo.methods(mod, cls) if any(d.endswith(".setter") or d.endswith(".deleter") for d in f.decorators)]
     for f in setters:
         ctx.bad("C14.D4", f.qualname, "property setter", expected="no setters on a message", found=str(f.decorators), **eng.loc(f, f.node))
+
+    # ---------------- D5 the payload object is immutable bytes
+    ctx.rule("C14.D5", "byte strings reaching a message's payload are immutable: the socket wrapper's read()/readline() return `bytes` on every path (never a slice of "
+                       "its bytearray buffer), the read primitives return the stream's result unchanged, the frame handed to the static parser and the payload "
+                       "handed to the constructor are `bytes` whenever the stream returns `bytes` (kind inference: slices and `+` keep the kind of their base / left operand)")
+    from ..bytekind import ByteKind
+
+    bk = ByteKind(eng)
+    nk = 0
+    for name in ("read", "readline"):
+        q = f"{eng.socket_cls}.{name}"
+        if q not in eng.repo.funcs:
+            ctx.error(f"anchor {q} not found")
+            continue
+        f = eng.repo.funcs[q]
+        ctx.touch(func=q, file=eng.repo.relpath(f.module))
+        for k, e in bk.returns(q):
+            nk += 1
+            ctx.check(k == "bytes", "C14.D5", q, norm(e.node)[:80], expected="immutable bytes", found=f"{k}: {show(e.term)[:80]}", **eng.loc(f, e.node))
+    for q in (eng.read_primitive, eng.line_primitive) if hasattr(eng, "line_primitive") else (eng.read_primitive,):
+        f = eng.repo.func(q)
+        for k, e in bk.returns(q):
+            nk += 1
+            ctx.check(k in ("bytes", "ext"), "C14.D5", q, norm(e.node)[:80], expected="the stream's own result (or bytes)", found=f"{k}: {show(e.term)[:80]}", **eng.loc(f, e.node))
+    fa = eng.repo.func(eng.frame_assembler)
+    sfa = eng.symeval(fa.qualname)
+    for e in sfa.effects:
+        if e.kind == "call" and e.term[2] == ("attr", ("self",), "parse") and e.term[3]:
+            nk += 1
+            k = bk.kind(fa, sfa, e.term[3][0])
+            ctx.check(k in ("bytes", "ext"), "C14.D5", fa.qualname, "frame handed to the static parser", expected="bytes when the stream returns bytes", found=f"{k}: {show(e.term[3][0])[:80]}", **eng.loc(fa, e.node))
+    pr = eng.repo.func(f"{eng.reader_cls}.parse")
+    spr = eng.symeval(pr.qualname)
+    for e in spr.effects:
+        if e.kind == "call" and e.term[2] == ("class", eng.message_cls):
+            kw = dict(e.term[4])
+            arg = e.term[3][0] if e.term[3] else kw.get("payload")
+            if arg is not None:
+                nk += 1
+                k = bk.kind(pr, spr, arg)
+                ctx.check(k in ("bytes", "ext"), "C14.D5", pr.qualname, "payload handed to the constructor", expected="same kind as the frame (a slice of it)", found=f"{k}: {show(arg)[:80]}", **eng.loc(pr, e.node))
+    ctx.instance("byte-kind sites", nk, 6)
+    ctx.assume("the underlying stream's read()/readline() and socket.recv() return immutable bytes (stream protocol); a caller passing its own bytearray as payload keeps a mutable alias")
